@@ -109,9 +109,10 @@ func (rt *runtime) enterFunctionScope(outer stasher, this Value) *fnStash {
 func (rt *runtime) putValue(reference referencer, value Value) {
 	name := reference.putValue(value)
 	if name != "" {
-		// Why? -- If reference.base == nil
-		// strict = false
-		rt.globalObject.defineProperty(name, value, 0o111, false)
+		// An unresolvable reference: [[Put]] on the global object (8.7.2 step
+		// 3.b), which respects a property or setter the right-hand side may
+		// have created there in the meantime.
+		rt.globalObject.put(name, value, false)
 	}
 }
 
